@@ -10,6 +10,7 @@ META = {
         "(2) unwind wiring: the next frame's stack pointer register (DWARF number of Rsp) is updated with the previous frame's CFA, the return address is read from the CIE's return-address register, the CFA rule RegisterAndOffset is register value + offset, and the register-rule table (Offset reads memory at CFA+off, ValOffset is CFA+off itself, SameValue/Register copy from the caller-side snapshot) is applied per variant; "
         "(3) the unwind loop carries both a constant depth bound and a visited-set exit, and frames are pushed only after both guards; restore_registers_at_frame iterates exactly frame_num times; "
         "(4) frame selection builds the new exploration context from the same backtrace entry (ip) and index."
+        " (5) frame arithmetic: restore_registers_at_frame(n) hands out frame n (n-1 steps after the initial context, stack pointer = that context's CFA, no silent early exit), get_cfa evaluates over the registers of the frame in focus, frame_info depends on the focus frame, an undefined return-address rule ends the unwind, cycle guards are keyed by (return address, CFA)."
     ),
     "not_decided": "that the listed frames equal the real call chain for real binaries (needs execution and CFI of real programs); gimli's CFI interpretation",
     "assumptions": ["gimli's UnwindTableRow/RegisterRule semantics are as documented"],
